@@ -229,6 +229,27 @@ func (e *Effects) containerField1(v ssa.Value, seen map[ssa.Value]bool) (string,
 		}
 		break
 	}
+	// an element looked up in / loaded from a protected container is itself a (nested) container: "owner.field[]"
+	switch x := v.(type) {
+	case *ssa.Lookup:
+		if o, f, ok := e.containerField1(x.X, seen); ok {
+			return o, f + "[]", true
+		}
+	case *ssa.Extract:
+		if lk, ok := x.Tuple.(*ssa.Lookup); ok && x.Index == 0 {
+			if o, f, ok := e.containerField1(lk.X, seen); ok {
+				return o, f + "[]", true
+			}
+		}
+	case *ssa.UnOp:
+		if x.Op == token.MUL {
+			if ia, ok := x.X.(*ssa.IndexAddr); ok {
+				if o, f, ok := e.containerField1(ia.X, seen); ok {
+					return o, f + "[]", true
+				}
+			}
+		}
+	}
 	if u, ok := v.(*ssa.UnOp); ok && u.Op == token.MUL {
 		if fa, ok := u.X.(*ssa.FieldAddr); ok {
 			if owner, ok := e.protName(fa.X.Type()); ok {
@@ -314,7 +335,7 @@ func (e *Effects) scan(fn *ssa.Function) []Write {
 				case "append":
 					if owner, field, ok := e.containerField(cc.Args[0]); ok {
 						kind := "append"
-						if _, resliced := cc.Args[0].(*ssa.Slice); resliced {
+						if derivesFromReslice(cc.Args[0], map[ssa.Value]bool{}) {
 							kind = "append-inplace"
 						}
 						add(in, owner, field, kind, cc.Args[0])
@@ -349,6 +370,32 @@ func (e *Effects) scan(fn *ssa.Function) []Write {
 		}
 	})
 	return out
+}
+
+// derivesFromReslice: the append destination is (through phis and earlier appends) a reslice x[a:b] of an existing
+// slice: the append then overwrites elements of x's backing array in place.
+func derivesFromReslice(v ssa.Value, seen map[ssa.Value]bool) bool {
+	if seen[v] {
+		return false
+	}
+	seen[v] = true
+	switch x := v.(type) {
+	case *ssa.Slice:
+		return true
+	case *ssa.Phi:
+		for _, e := range x.Edges {
+			if derivesFromReslice(e, seen) {
+				return true
+			}
+		}
+	case *ssa.Call:
+		if b, ok := x.Call.Value.(*ssa.Builtin); ok && b.Name() == "append" && len(x.Call.Args) > 0 {
+			return derivesFromReslice(x.Call.Args[0], seen)
+		}
+	case *ssa.ChangeType:
+		return derivesFromReslice(x.X, seen)
+	}
+	return false
 }
 
 // close computes transitive (non-fresh) write targets over the module call graph.
